@@ -71,27 +71,20 @@ Theorem C01_integer_forms_validate_alike :
 Proof. exact RulesPart.int_step. Qed.
 Print Assumptions C01_integer_forms_validate_alike.
 
-(* 3. The property as stated is false on the current code. *)
+(* 3. The property as stated is false on the current code (witness: the MinInt32 big-decimal exponent below). *)
 Theorem C01_full_refuted : ~ RulesPart.C01_full.
 Proof. exact RulesPart.C01_full_refuted. Qed.
 Print Assumptions C01_full_refuted.
 
-(* custom text through the chunked API is written, silently, as custom binary *)
-Theorem C01_refuted_chunked_custom_text :
-  cbe_encode chunked_custom_text_doc = Some [129; 0; 146; 3; 4; 97; 98] /\
-  cbe_decode default_dcfg [129; 0; 146; 3; 4; 97; 98] =
-    ([EBeginDoc; EVersion 0; ECustomBegin cbeAT_CustomBinary 3; EArrayChunk 2 false; EArrayData [97; 98]; EEndDoc], DOk) /\
-  den chunked_custom_text_doc = [DBeginDoc; DVersion 0; DCustom true 3 [97; 98]; DEndDoc] /\
-  den (fst (cbe_decode default_dcfg [129; 0; 146; 3; 4; 97; 98])) = [DBeginDoc; DVersion 0; DCustom false 3 [97; 98]; DEndDoc].
-Proof. exact chunked_custom_text_changes. Qed.
-Print Assumptions C01_refuted_chunked_custom_text.
-
-(* custom text in one event is rules-valid and refused by the encoder *)
-Theorem C01_refuted_custom_text :
+(* Custom text is outside what CBE carries: both forms (one event, chunked API) are rules-valid and
+   REFUSED by the encoder - an error, not a silent change of kind. *)
+Theorem C01_custom_text_refused :
   Rules.accepts_document Rules.default_rcfg [EBeginDoc; EVersion 0; ECustomText 3 [97; 98]; EEndDoc] = true /\
-  cbe_encode [EBeginDoc; EVersion 0; ECustomText 3 [97; 98]; EEndDoc] = None.
-Proof. exact RulesPart.whole_custom_text_valid_but_refused. Qed.
-Print Assumptions C01_refuted_custom_text.
+  cbe_encode [EBeginDoc; EVersion 0; ECustomText 3 [97; 98]; EEndDoc] = None /\
+  Rules.accepts_document Rules.default_rcfg chunked_custom_text_doc = true /\
+  cbe_encode chunked_custom_text_doc = None.
+Proof. exact RulesPart.custom_text_valid_but_refused. Qed.
+Print Assumptions C01_custom_text_refused.
 
 (* a big decimal with exponent MinInt32 is rules-valid and written as a document the decoder rejects *)
 Theorem C01_refuted_bigdecimal_expmin :
